@@ -2,7 +2,7 @@
 panic / word-width obligations of the five matchers discharged from the constructor guards or audited)."""
 import re
 from . import eng_po
-from .mirlib import call_info, walk
+from .mirlib import call_info, walk, strip_casts
 
 LEVEL = 'proof'
 MATCHERS = {
@@ -229,6 +229,54 @@ def po1(facts, rep):
                        'audit_table_size': len(AUDIT)}
 
 
+def fallback_sites(b):
+    """blocks with an assignment  q = table[q - 1]  (failure-link step): a local that is overwritten with the element
+    of a Vec indexed by (the same local - 1)"""
+    out = []
+    for bb in b.reachable(0):
+        for i, s in enumerate(b.stmts(bb)):
+            if s['k'] != 'assign' or 'pj' in s['p'] or not b.is_user(s['p']['l']):
+                continue
+            q = s['p']['l']
+            e = strip_casts(b.expr_rvalue(s['r'], inline_user=False))
+            # expect index(call)(table, Sub(q, 1).0)
+            if e[0] == 'call' and (e[3] or e[1]).endswith('Index::index') and len(e[2]) == 2:
+                idx = strip_casts(e[2][1])
+                if idx[0] == 'field' and idx[2] == '0':
+                    idx = idx[1]
+                if idx[0] == 'bin' and idx[1].startswith('Sub') and strip_casts(idx[2]) == ('local', q, b.local_name(q)) \
+                        and strip_casts(idx[3])[0] == 'const' and strip_casts(idx[3])[1] == 1:
+                    out.append((bb, i, q))
+    return out
+
+
+def ts9(facts, rep):
+    rule = 'TS-9'
+    rep.rule(rule, 'failure links are followed iteratively: the step q = lps[q - 1] of KMP::delta lies on a CFG cycle and the '
+                   'one of kmp::lps on an inner cycle of the table-filling loop (a single fallback step is wrong for patterns '
+                   'with nested borders); BOM::new follows suffix links in a loop likewise')
+    for path, depth in (('pattern_matching::kmp::KMP::<\'a>::delta', 1), ('pattern_matching::kmp::lps', 2)):
+        b = facts.body(path)
+        key = '%s|fallback-iterated' % fn_short(path)
+        if b is None:
+            rep.missing(rule, key, 'not found')
+            continue
+        rep.analysed_body(b)
+        sites = fallback_sites(b)
+        if not sites:
+            rep.bad(rule, key, '%s:%s' % (b.file, b.line), 'no failure-link step q = lps[q - 1] found')
+            continue
+        bad = [(bb, i) for bb, i, _q in sites if b.loop_depth(bb) < depth]
+        if bad:
+            rep.bad(rule, key, b.loc(bad[0][0], bad[0][1]), 'the failure-link step is executed at most once per symbol (loop depth '
+                                                           '%d, need %d): after a mismatch the automaton may stay in a state '
+                                                           'that claims more matched prefix than the text supports' % (
+                        b.loop_depth(bad[0][0]), depth))
+        else:
+            rep.ok(rule, key, b.loc(sites[0][0], sites[0][1]), 'q = lps[q - 1] inside a loop of depth >= %d' % depth)
+
+
 def run(facts, rep, ctx):
     purity(facts, rep)
     po1(facts, rep)
+    ts9(facts, rep)
